@@ -64,6 +64,14 @@ routes return different values) and M58 (C15: an error inside a compound value r
 index-key tables for same-typed tuple variants, C15's typed decodes are repeated through `Option` at
 every level. All 60 are caught now. Over the three rounds: 60 changes, 44 caught at once by the check
 of their own property, 16 led to a strengthening.
+Fourth round (agents were given the list of all ideas already used for their property), C01-C07
+(M61-M67): 4 caught at once (C01, C02, C03, C07); M64 (C04: the same site as M34, found independently:
+an abort by stack overflow after a forgotten limit) was seen by C05 but not by C04 — C04 now feeds
+every nesting construct far beyond the limit to the implementation; M65 (C05: two comparison changes
+that only together let the counter step over the limit) was caught through the correspondence only —
+C05 gained an independent Python statement of the nesting rule as a direct oracle for both verdicts;
+M66 (C06: `[,]` for an empty array with the trailing-comma flag) — C06's flagged stream sets array
+flags too.
 """
 p = os.path.join(ROOT, "DESIGN.md")
 s = open(p).read()
